@@ -291,6 +291,31 @@ theorem orphan_after_invoke_witness :
         (fun r => (r.stack, r.frames, r.ip)) = some ([4], [], 11) := by
   decide
 
+/-! ## The code as it is now (decisions read from vm.rs by translate/c08_code.py) -/
+
+/-- vm.rs closes the mark of a frame popped by the error unwind, closes a shared open mark when its frame is popped
+by an invocation, and pushes no dummy frame under an outermost handler frame.  (A change back breaks this
+obligation; the regression programs findings/C08-K08c.scm, C08-K08d.scm then fail in the differential run.) -/
+theorem code_mark_discipline :
+    GenCode.codeCfg.closeOnUnwind = true ∧ GenCode.codeCfg.closeWhenShared = true ∧
+    GenCode.codeCfg.dummyFrame = false := by decide
+
+/-- `handler_nearest` for the code as it is. -/
+theorem handler_nearest_code (err : V) (vm : VM) (pre : List Frame) (f : Frame) (below : List Frame) (h : Nat)
+    (hpre : ∀ g ∈ pre, g.handler = none) (hf : f.handler = some h)
+    (hs : Model.Sorted vm.stack (pre ++ f :: below)) :
+    ∃ r, unwind GenCode.codeCfg err vm (pre ++ f :: below) = some r ∧ r.stack = vm.stack.take f.sp ++ [err] ∧
+      r.sp = f.sp ∧ r.ip = 0 ∧ r.store = vm.store ∧
+      r.frames = { f with handler := none, fn := h, mark := none } :: below :=
+  handler_nearest GenCode.codeCfg code_mark_discipline.2.2 err vm pre f below h hpre hf hs
+
+/-- `invoke_never_panics` for the code as it is. -/
+theorem invoke_never_panics_code (stack store : List V) (ip : Nat) (ops : List Op) (vm : VM) (hs : AllShared ops)
+    (hrun : Model.run GenCode.codeCfg (init stack store ip) ops = some vm) (m : Nat) (hm : m < vm.marks.length)
+    (v : V) (w : Bool) : (invoke GenCode.codeCfg vm m v w true).isSome = true :=
+  invoke_never_panics GenCode.codeCfg code_mark_discipline.1 code_mark_discipline.2.1 stack store ip ops vm hs hrun
+    m hm v w
+
 /-! ## Non-vacuity -/
 
 /-- A run in which a continuation is captured in argument position with a pending temporary, the receiver returns
